@@ -942,6 +942,19 @@ class HookInterp(Interp):
             raise PyRaise("TypeError", [], "argument of this type is not iterable")
         raise Unsupported(f"in {coll}")
 
+    def constdict_lookup(self, ctx: Ctx, d, key: V):
+        key = force(ctx, key)
+        if isinstance(key, VJson):
+            kind = self.node_class(ctx, key)
+            if kind in ("arr", "obj"):
+                raise PyRaise("TypeError", [], "unhashable type used as a key of a constant table")
+            if kind == "str":
+                for k, v in d.entries:
+                    if ctx.branch(Eq(self.site.s(key.path), smt.sstr(k))):
+                        return v
+            return None  # a number / bool / null equals no string key
+        return super().constdict_lookup(ctx, d, key)
+
     def len_hook(self, ctx: Ctx, v: V) -> V:
         if isinstance(v, VJson):
             kind = self.node_class(ctx, v)
@@ -1156,10 +1169,15 @@ class HookInterp(Interp):
             return False
         if s.orelse:
             raise Unsupported("for-else")
+        names_before = set(env)
         kind = self.node_class(ctx, it)
         if kind == "scalar":
             raise PyRaise("TypeError", [], "object is not iterable")
         S = self.site
+        if kind in ("obj", "str"):
+            shape = self._key_search_shape(s)
+            if shape is not None:
+                return self._key_search_loop(ctx, s, it, shape, env, fi, kind)
         if kind != "arr":
             # iterating an object yields its keys, a string its characters: strings in both cases.  Only the case where the body leaves
             # the function on the first one is modelled (a type check that rejects the element); otherwise the subset is left.
@@ -1194,9 +1212,8 @@ class HookInterp(Interp):
             self.exec_block(ctx, s.body, env, fi)
         if k <= NELEMS:
             return True
-        for node in ast.walk(s):
-            if isinstance(node, (ast.Assign, ast.AugAssign, ast.AnnAssign, ast.Break, ast.Continue, ast.Call)) and not (isinstance(node, ast.Call) and self._pure_call(node)):
-                raise Unsupported("loop over a JSON array whose body is not a pure check")
+        if not self._is_check_body(s.body, names_before):
+            raise Unsupported("loop over a JSON array whose body is not a pure check")
         S.witness_arrays.add(it.path)
         gen, wit = VJson(S.elem(it.path, "*")), VJson(S.elem(it.path, "w"))
         exists = ctx.choose([TRUE, TRUE]) == 0
@@ -1210,6 +1227,75 @@ class HookInterp(Interp):
                 self.exec_block(ctx, s.body, env, fi)
             except (PyRaise, _ReturnT):
                 raise_inf()
+        return True
+
+    @staticmethod
+    def _key_search_shape(s: ast.For) -> Optional[Tuple[List[ast.stmt], ast.If]]:
+        """`for key in obj: <plain assignments>; if <test>: ... return / raise` - a search over the keys of a JSON object."""
+        if not isinstance(s.target, ast.Name) or not s.body or not isinstance(s.body[-1], ast.If) or s.body[-1].orelse:
+            return None
+        ifs = s.body[-1]
+        if not ifs.body or not isinstance(ifs.body[-1], (ast.Return, ast.Raise)):
+            return None
+        pre = list(s.body[:-1])
+        for st in pre:
+            if not (isinstance(st, ast.Assign) and len(st.targets) == 1 and isinstance(st.targets[0], ast.Name)):
+                return None
+        for node in ast.walk(ast.Module(body=pre + [ifs], type_ignores=[])):
+            if isinstance(node, (ast.Break, ast.Continue, ast.For, ast.While, ast.Global, ast.Nonlocal)):
+                return None
+        return pre, ifs
+
+    def _key_search_loop(self, ctx: Ctx, s: ast.For, it: "VJson", shape, env, fi, kind: str = "obj") -> bool:
+        """The keys of a JSON object have no order the sender promises: the loop leaves the function at WHICHEVER present key makes the
+        test true comes first in the payload, so each such key is a possible outcome (non-exclusive alternatives), and falling through
+        is the outcome when no such key is present.  The test must be decided, for a key the code does not name, by comparisons with
+        string literals / constant tables (those literals become the named keys)."""
+        pre, ifs = shape
+        S, p = self.site, it.path
+        self._touch(it)
+        if kind == "str":
+            # a string iterates its characters: the same search, over one-character strings that occur in it
+            pk = p + "#chars"
+
+            def present(k: str) -> str:
+                return smt.Contains(S.s(p), smt.sstr(k)) if len(k) == 1 else FALSE
+
+        else:
+            pk = p
+
+            def present(k: str) -> str:
+                return S.has(p, k)
+
+        def test_for(keyval: V) -> Tuple[str, Dict[str, V]]:
+            env2 = dict(env)
+            self.assign(ctx, s.target, keyval, env2, fi)
+            self.exec_block(ctx, pre, env2, fi)
+            return self.truth_term(ctx, self.eval(ctx, ifs.test, env2, fi)), env2
+
+        npc, ntaken = len(ctx.pc), len(ctx.taken)
+        c_om, _ = test_for(VOmegaKey(OMEGA_KEY_MARK, pk))
+        if c_om != FALSE or len(ctx.pc) != npc or len(ctx.taken) != ntaken:
+            raise Unsupported("search over the keys of an object whose test is not decided by the literals it names")
+        named = sorted(k for k in S.keys.get(pk, ()) if k != OMEGA)
+        exiting: List[str] = []
+        for k in named:
+            t, _ = test_for(VStr(smt.sstr(k)))
+            if len(ctx.pc) != npc or len(ctx.taken) != ntaken or t not in (TRUE, FALSE):
+                raise Unsupported("search over the keys of an object whose test depends on more than the key")
+            if t == TRUE:
+                exiting.append(k)
+        exiting = [k for k in exiting if present(k) != FALSE]
+        conds = [present(k) for k in exiting] + [And(*[Not(present(k)) for k in exiting])]
+        if len(exiting) > 1:
+            S.key_order_nondet = True  # two present keys can both be "the first": the encoding is deliberately nondeterministic here
+        i = ctx.choose(conds)
+        if i < len(exiting):
+            _, env2 = test_for(VStr(smt.sstr(exiting[i])))
+            self.exec_block(ctx, ifs.body, env2, fi)  # ends in return / raise
+            raise Unsupported("search loop body did not leave the function")
+        for st in [s.target] + [a.targets[0] for a in pre]:
+            env.pop(st.id, None)  # loop-local names hold the last key's values afterwards: not modelled
         return True
 
     def map_json_array(self, ctx: Ctx, it: "VJson", target: ast.expr, env, fi, elt) -> "VJsonMapped":
@@ -1248,6 +1334,45 @@ class HookInterp(Interp):
             if isinstance(node, ast.Name) and node.id == acc:
                 return None
         return acc, last.value.args[0], list(s.body[:-1])
+
+    def _is_check_body(self, body: List[ast.stmt], env) -> bool:
+        """The body has no effect unless it leaves the function: assignments go to loop-local names only, calls are pure except inside a
+        block that ends in return / raise (which runs once, on the way out)."""
+
+        def pure_expr(e: ast.AST) -> bool:
+            for node in ast.walk(e):
+                if isinstance(node, ast.Call) and not (self._pure_call(node) or (isinstance(node.func, ast.Attribute) and node.func.attr in ("get", "keys", "items", "values", "startswith", "endswith"))):
+                    return False
+                if isinstance(node, (ast.NamedExpr, ast.Await, ast.Yield, ast.YieldFrom)):
+                    return False
+            return True
+
+        def ok(stmts: List[ast.stmt]) -> bool:
+            for st in stmts:
+                if isinstance(st, ast.Assign):
+                    if not (len(st.targets) == 1 and isinstance(st.targets[0], ast.Name) and st.targets[0].id not in env and pure_expr(st.value)):
+                        return False
+                elif isinstance(st, ast.If):
+                    if not pure_expr(st.test):
+                        return False
+                    for blk in (st.body, st.orelse):
+                        if blk and isinstance(blk[-1], (ast.Return, ast.Raise)):
+                            continue  # leaves the function: whatever it calls happens once
+                        if not ok(blk):
+                            return False
+                elif isinstance(st, (ast.Raise, ast.Return, ast.Pass)):
+                    continue
+                elif isinstance(st, ast.Expr):
+                    if not pure_expr(st.value):
+                        return False
+                elif isinstance(st, ast.Assert):
+                    if not pure_expr(st.test):
+                        return False
+                else:
+                    return False
+            return True
+
+        return ok(body)
 
     @staticmethod
     def _pure_call(node: ast.Call) -> bool:
